@@ -149,6 +149,7 @@ type Env struct {
 	MkBox  func(int) Box                    // a struct value that cannot be a map key
 	FnAnys func([]interface{}) int          // takes what an array literal is typed as
 	Tuple  func(...interface{}) interface{} // returns (and so retains) its own argument slice
+	FnPIt  func(*Item) int                  // pointer parameter: accepts nil
 
 	log *Log
 }
@@ -245,6 +246,14 @@ func New(l *Log) *Env {
 	e.Arr3, e.ArrS = [3]int{7, 8, 9}, [2]string{"p", "q"}
 	e.MkBox = func(n int) Box { l.add("MkBox", n); return Box{Xs: []int{n, n + 1}, N: n, Any: []int{n}} }
 	e.FnAnys = func(xs []interface{}) int { l.add("FnAnys", xs); return len(xs) }
+	e.FnPIt = func(it *Item) int {
+		if it == nil {
+			l.add("FnPIt", nil)
+			return -1
+		}
+		l.add("FnPIt", it.ID)
+		return it.ID
+	}
 	e.Tuple = func(xs ...interface{}) interface{} { l.add("Tuple", fmt.Sprint(xs)); return xs }
 	e.MkItem = func(n int) *Item {
 		l.add("MkItem", n)
